@@ -81,6 +81,22 @@ func followShared(n, p int, useOnet bool) scenario {
 	return b.sc
 }
 
+// k follow-ups answered on the SAME service channel, then a burst of n values:
+// k+1 forwarders take the values off one channel
+func followSharedBurst(k, n int) scenario {
+	b := newB("follow-shared-burst", 1, 1).open(0, 0)
+	for i := 0; i < k; i++ {
+		b.add(op{S: 0, K: "send", C: 0, Wait: true})
+	}
+	for v := 1; v <= n; v++ {
+		b.emit(0, 0, v)
+	}
+	for v := 1; v <= n; v++ {
+		b.recv(0)
+	}
+	return b.end(0, 0).recv(0).sc
+}
+
 // valid follow-up at position p answered on a NEW service channel; both channels
 // are drained before the service ends them
 func followNew(n, p int) scenario {
@@ -163,7 +179,8 @@ func followFull(extra int, then string) scenario {
 	case "close":
 		b.add(op{S: 0, K: "close"})
 	}
-	b.add(op{S: 0, K: "release"})
+	// every follow-up is handled before the scenario goes on to end the channels
+	b.add(op{S: 0, K: "release"}).add(op{S: 0, K: "waithandled", V: 2 + 11 + extra})
 	return b.sc
 }
 
@@ -224,6 +241,7 @@ func corpus() []interface{} {
 		badFollow("bad", 0, "leave", false), // F18: stop never signalled
 		followFull(0, "end"),               // F19: reader blocked in its send when clientInputs is closed
 		followNewFirstEnd(1, 1),            // F29: first forwarder to finish closes outChan under the second
+		followSharedBurst(2, 5),            // C15-N2: forwarders on one service channel overtake each other
 		plain(3, true),
 		clientLeaves("close", 5, 2, true),
 		clientLeaves("drop", 5, 2, false),
@@ -271,6 +289,9 @@ func genAll(rng *rand.Rand, tier string) []interface{} {
 		}
 	}
 	add(badFirst())
+	for i := 0; i < 3 || (!quick && i < 20); i++ {
+		add(followSharedBurst(1+rng.Intn(2), 3+rng.Intn(3)))
+	}
 	// defective territory: a few positions each in the quick tier
 	pos := []int{0, 1, 3}
 	if !quick {
